@@ -259,4 +259,237 @@ def TBlock.trickle (m : Batcher.Mode) (delta gap : Nat) (b : TBlock α) : List (
   | [] => b
   | (y, el) :: ys => TBlock.trickle m delta gap ((TBlock.ticks delta gap b).recvB m y el) ys
 
+/-! ### `KBlock`: `Start` + `End` with `k` downstream replicas, time in milliseconds
+
+  The executable generalisation of `TBlock` that the component harness `tblock` is diffed against:
+  `age d` = `last_send.elapsed()` of the batcher towards replica `d`; the batcher's timer test at an
+  enqueue is `age d > delta` (batcher.rs:77); a flush resets it (`last_send = now`, batcher.rs:108). -/
+
+structure KBlock (α : Type) where
+  bufs : List (List α)
+  age : List Nat
+  idle : Bool
+  deriving Repr, DecidableEq
+
+def KBlock.init (k : Nat) : KBlock α := ⟨List.replicate k [], List.replicate k 0, false⟩
+
+def KBlock.pass (b : KBlock α) (ms : Nat) : KBlock α := { b with age := b.age.map (· + ms) }
+
+/-- one element routed to destination `d`: state and the batches sent, tagged with `d` -/
+def KBlock.enqueue (m : Batcher.Mode) (delta : Nat) (b : KBlock α) (d : Nat) (x : α) :
+    KBlock α × List (Nat × List α) :=
+  let r := Batcher.enqueue m (b.bufs.getD d []) x (decide (b.age.getD d 0 > delta))
+  let flushed := !r.2.isEmpty && m != .single          -- `Single` does not touch `last_send`
+  ({ b with bufs := b.bufs.set d r.1, age := if flushed then b.age.set d 0 else b.age },
+   r.2.map (fun batch => (d, batch)))
+
+/-- a received batch, already routed: `(destination, element)` in order; re-arms the timeout -/
+def KBlock.recv (m : Batcher.Mode) (delta : Nat) (b : KBlock α) : List (Nat × α) → KBlock α × List (Nat × List α)
+  | [] => ({ b with idle := false }, [])
+  | (d, x) :: xs =>
+    let r := b.enqueue m delta d x
+    let r' := KBlock.recv m delta r.1 xs
+    (r'.1, r.2 ++ r'.2)
+
+/-- the timeout `FlushBatch`: `End` flushes every batcher (in sender order) -/
+def KBlock.flushFrom (b : KBlock α) : Nat → List (List α) → List (List α) × List Nat × List (Nat × List α)
+  | _, [] => ([], [], [])
+  | d, buf :: rest =>
+    let r := KBlock.flushFrom b (d + 1) rest
+    let a := b.age.getD d 0
+    if buf.isEmpty then (buf :: r.1, a :: r.2.1, r.2.2)
+    else ([] :: r.1, 0 :: r.2.1, (d, buf) :: r.2.2)
+
+/-- `recv_timeout(delta)` expires (only when not idle): `delta` ms pass, everything is flushed -/
+def KBlock.timeout (delta : Nat) (b : KBlock α) : KBlock α × List (Nat × List α) :=
+  let b := b.pass delta
+  let r := b.flushFrom 0 b.bufs
+  ({ bufs := r.1, age := r.2.1, idle := true }, r.2.2)
+
+/-! ### Fairness vocabulary: enabled events and the work still to be done -/
+
+/-- is the event enabled (does it do anything) in this state? `recv i`: channel `i` holds a batch;
+    `timeout i`: see `timeoutEnabled`; `srcIdle`: the source is not yet asleep. -/
+def recvEnabledL : Nat → List (Stage α) → Bool
+  | _, [] => false
+  | 0, s :: _ => !s.chan.isEmpty
+  | i + 1, _ :: rest => recvEnabledL i rest
+
+def timeoutEnabledL : Nat → List (Stage α) → Bool
+  | 0, _ => false
+  | _, [] => false
+  | _, [_] => false
+  | 1, s :: t :: _ => timeoutEnabled s t
+  | i + 2, _ :: rest => timeoutEnabledL (i + 1) rest
+
+def Enabled (s : State α) : Ev α → Bool
+  | .src _ _ => !s.stages.isEmpty
+  | .srcIdle => match s.stages with | [] => false | s0 :: _ => !s0.idle
+  | .recv i _ => recvEnabledL i s.stages
+  | .timeout i => timeoutEnabledL i s.stages
+
+/-- number of events of a schedule that are enabled when their turn comes -/
+def countEnabled (s : State α) : List (Ev α) → Nat
+  | [] => 0
+  | e :: es => (if Enabled s e then 1 else 0) + countEnabled (step s e) es
+
+/-- hops still ahead of an element that the chains `fs` will process: 2 per batch it can be part of -/
+def wt : List (α → List α) → α → Nat
+  | [], _ => 0
+  | f :: fs, y => ((f y).map (fun z => 2 + wt fs z)).sum
+
+/-- **Work bound** of a stage list: 2 per queued batch, 2 per buffered element (it will be sent in
+    some batch), plus everything these elements cause downstream, plus 1 per block whose timeout
+    (block 0: idle flush) is still armed. Every enabled event except `src` lowers it. -/
+def phi : List (Stage α) → Nat
+  | [] => 0
+  | s :: rest =>
+    (s.buf.map (fun y => 2 + wt (fsOf rest) y)).sum +
+    (s.chan.map (fun b => 2 + (b.map (wt (fsOf rest))).sum)).sum +
+    (if s.idle then 0 else 1) + phi rest
+
+/-- nothing is enabled except new input -/
+def Stuck (s : State α) : Prop := ∀ e : Ev α, Ev.isSrc e = false → Enabled s e = false
+
+/-- number of `timeout i` events of a schedule that are enabled when their turn comes -/
+def countTimeouts (i : Nat) (s : State α) : List (Ev α) → Nat
+  | [] => 0
+  | e :: es =>
+    (match e with
+     | .timeout j => if j = i && Enabled s e then 1 else 0
+     | _ => 0) + countTimeouts i (step s e) es
+
+/-- the schedule contains no receive of block `i` (no `recv (i-1)`) -/
+def noRecvOf (i : Nat) : List (Ev α) → Bool
+  | [] => true
+  | .recv j _ :: es => j + 1 != i && noRecvOf i es
+  | _ :: es => noRecvOf i es
+
+end Noir.Latency
+
+/-! ## The general network: several replicas per block, fan-out by an arbitrary routing function
+
+  Layers `0 … depth` of blocks, `width i` replicas in layer `i`, the sink is the single replica of layer
+  `depth + 1`. Replica `(i, r)` has one batcher per replica `d` of the next layer (`End::senders`,
+  end.rs:172-178) — its `Row` — and routes every element it produces with `route i` (any function:
+  key hash, round robin state is not needed for the theorems). A link `(i, r) → (i+1, d)` is FIFO; a
+  receiver takes the oldest batch of ANY of its incoming links (`recv i r u`: replica `(i, r)` takes
+  from upstream replica `u`), which covers every arrival order of the real merged channel. Every
+  received batch re-arms the receive timeout of the block, whoever sent it. `timeout i r` is enabled
+  only when ALL incoming links of `(i, r)` are empty.
+  Ghosts: `got` (what a replica has processed so far, in order), `sent`/`recvOn` per link. -/
+namespace Noir.Net
+
+variable {α : Type}
+
+structure Cfg (α : Type) where
+  depth : Nat
+  width : Nat → Nat
+  mode : Nat → Batcher.Mode
+  f : Nat → α → List α
+  route : Nat → α → Nat
+
+/-- the batchers of one replica, by destination replica -/
+structure Row (α : Type) where
+  buf : Nat → List α
+  out : Nat → List (List α)
+  /-- ghost: everything ever enqueued towards `d` -/
+  sent : Nat → List α
+
+def Row.empty : Row α := ⟨fun _ => [], fun _ => [], fun _ => []⟩
+
+/-- `End::next` for one data element: `Batcher::enqueue` on the batcher chosen by the routing -/
+def Row.push (m : Batcher.Mode) (dest : α → Nat) (ρ : Row α) (y : α) (el : Bool) : Row α :=
+  let d := dest y
+  let r := Batcher.enqueue m (ρ.buf d) y el
+  { buf := fun d' => if d' = d then r.1 else ρ.buf d',
+    out := fun d' => if d' = d then ρ.out d ++ r.2 else ρ.out d',
+    sent := fun d' => if d' = d then ρ.sent d ++ [y] else ρ.sent d' }
+
+def Row.pushAll (m : Batcher.Mode) (dest : α → Nat) (ρ : Row α) : List α → List Bool → Row α
+  | [], _ => ρ
+  | y :: ys, els => Row.pushAll m dest (ρ.push m dest y (els.headD false)) ys els.tail
+
+/-- `FlushBatch`: every batcher of the `End` is flushed -/
+def Row.flushAll (ρ : Row α) : Row α :=
+  { ρ with buf := fun d => (Batcher.flush (ρ.buf d)).1,
+           out := fun d => ρ.out d ++ (Batcher.flush (ρ.buf d)).2 }
+
+structure State (α : Type) where
+  row : Nat → Nat → Row α
+  idle : Nat → Nat → Bool
+  /-- ghost: elements processed by replica `(i, r)` (for the sink: delivered), in order -/
+  got : Nat → Nat → List α
+  /-- ghost: elements replica `(i+1, d)` has received over link `(i, r) → (i+1, d)` -/
+  recvOn : Nat → Nat → Nat → List α
+
+def State.init : State α := ⟨fun _ _ => Row.empty, fun _ _ => false, fun _ _ => [], fun _ _ _ => []⟩
+
+inductive Ev (α : Type) where
+  | src (r : Nat) (x : α) (els : List Bool)
+  | srcIdle (r : Nat)
+  | recv (i r u : Nat) (els : List Bool)
+  | timeout (i r : Nat)
+
+def dest (c : Cfg α) (i : Nat) (y : α) : Nat := c.route i y % c.width (i + 1)
+
+def setRow (s : State α) (i r : Nat) (ρ : Row α) : Nat → Nat → Row α :=
+  fun i' r' => if i' = i ∧ r' = r then ρ else s.row i' r'
+
+/-- replica `(i, r)` processes the input elements `xs` -/
+def process (c : Cfg α) (s : State α) (i r : Nat) (xs : List α) (els : List Bool) : State α :=
+  { s with
+    row := setRow s i r (Row.pushAll (c.mode i) (dest c i) (s.row i r) (xs.flatMap (c.f i)) els),
+    idle := fun i' r' => if i' = i ∧ r' = r then false else s.idle i' r',
+    got := fun i' r' => if i' = i ∧ r' = r then s.got i r ++ xs else s.got i' r' }
+
+def isAdaptive : Batcher.Mode → Bool
+  | .adaptive _ => true
+  | _ => false
+
+/-- all incoming links of `(i, r)` are empty -/
+def inputEmpty (c : Cfg α) (s : State α) (i r : Nat) : Bool :=
+  (List.range (c.width (i - 1))).all fun u => ((s.row (i - 1) u).out r).isEmpty
+
+def timeoutEnabled (c : Cfg α) (s : State α) (i r : Nat) : Bool :=
+  decide (1 ≤ i) && decide (i ≤ c.depth) && inputEmpty c s i r && !s.idle i r && isAdaptive (c.mode i)
+
+def flushIdle (s : State α) (i r : Nat) : State α :=
+  { s with row := setRow s i r (s.row i r).flushAll,
+           idle := fun i' r' => if i' = i ∧ r' = r then true else s.idle i' r' }
+
+def step (c : Cfg α) (s : State α) : Ev α → State α
+  | .src r x els => process c s 0 r [x] els
+  | .srcIdle r => flushIdle s 0 r
+  | .recv i r u els =>
+    if i = 0 then s else
+    match (s.row (i - 1) u).out r with
+    | [] => s
+    | b :: bs =>
+      let ρ := s.row (i - 1) u
+      let s1 : State α :=
+        { s with row := setRow s (i - 1) u { ρ with out := fun d => if d = r then bs else ρ.out d },
+                 recvOn := fun i' u' r' => if i' = i - 1 ∧ u' = u ∧ r' = r then s.recvOn (i - 1) u r ++ b
+                                          else s.recvOn i' u' r' }
+      if i ≤ c.depth then process c s1 i r b els
+      else { s1 with got := fun i' r' => if i' = i ∧ r' = r then s.got i r ++ b else s1.got i' r' }
+  | .timeout i r => if timeoutEnabled c s i r then flushIdle s i r else s
+
+def run (c : Cfg α) (s : State α) : List (Ev α) → State α
+  | [] => s
+  | e :: es => run c (step c s e) es
+
+/-- nothing buffered, nothing on any link -/
+def Quiescent (s : State α) : Prop := ∀ i r d, (s.row i r).buf d = [] ∧ (s.row i r).out d = []
+
+/-- no `recv`, no `timeout` and no source flush can do anything any more -/
+def Stuck (c : Cfg α) (s : State α) : Prop :=
+  (∀ i r d, (s.row i r).out d = []) ∧
+  (∀ r, s.idle 0 r = true) ∧
+  (∀ i r, 1 ≤ i → i ≤ c.depth → timeoutEnabled c s i r = false)
+
+end Noir.Net
+
+namespace Noir.Latency
+variable {α : Type}
 end Noir.Latency
